@@ -37,7 +37,11 @@ SHAPES = {
                          "typedef big_fn *big_fn_ptr;\nstruct via_ptr_td { big_fn_ptr p; big_fn_ptr arr[2]; };\n"),
     "two-units": ("c", "struct tu { unsigned a:7; char sep; unsigned long long b0:64; unsigned long long b1:64; unsigned long long b2:64; unsigned long long b3:64; unsigned long long b4:8; };\n"),
     "incomplete": ("c", "struct inc { int n; char tail[]; };\nstruct zero { int n; int z[0]; };\n"),
-    "fnptr13": ("c", "typedef void (*big_fn)(int,int,int,int,int,int,int,int,int,int,int,int,int);\nstruct fp { big_fn f; };\nstruct fp12 { void (*g)(int,int,int,int,int,int,int,int,int,int,int,int); };\n"),
+    "fnptr13": ("c", "typedef void (*big_fn)(int,int,int,int,int,int,int,int,int,int,int,int,int);\nstruct fp { big_fn f; };\nstruct fp12 { void (*g)(int,int,int,int,int,int,int,int,int,int,int,int); };\n"
+                     # the limit counts the named parameters: a variadic tail is not one
+                     "struct fpv12 { int (*t)(int,int,int,int,int,int,int,int,int,int,int,int, ...); };\n"
+                     "struct fpv13 { int (*t)(int,int,int,int,int,int,int,int,int,int,int,int,int, ...); };\n"
+                     "struct hfpv { struct fpv12 a; struct fpv12 arr[2]; };\n"),
     "unions": ("c", "union u1 { int i; float f; };\nstruct hu { union u1 u; int tag; };\nunion u2 { struct hu h; char c[64]; };\n"),
     "packed": ("c", "struct __attribute__((packed)) pk { char c; int i; };\nstruct __attribute__((packed)) pkarr { char c; int a[40]; };\nstruct pkh { struct pk p; };\n"),
     "bitfields": ("c", "struct bf { unsigned a:3; unsigned b:5; int c; };\nstruct bfbig { unsigned long long x:40; unsigned long long y:40; char arr[40]; };\n"),
